@@ -316,7 +316,8 @@ Fixpoint ssorted_b (l : list op) : bool :=
   match l with [] => true | x :: t => forallb (id_lt x) t && ssorted_b t end.
 Definition next_ctr (t : tx) : N := tx_start t + N.of_nat (length (tx_pending t)).
 Definition wf_tx_b (t : tx) : bool :=
-  ssorted_b (tx_all t) && forallb (op_below (next_ctr t)) (tx_all t) && (0 <? tx_start t).
+  ssorted_b (tx_all t) && forallb (op_below (next_ctr t)) (tx_all t) && (0 <? tx_start t)
+  && forallb (fun o => 0 <? fst (op_id o)) (tx_all t).   (* (0, _) is the root / list head, never an op *)
 
 (* the document as a list of ops ascending by id, and the start_op the next transaction gets
    (transaction_args: max_op + 1) *)
